@@ -88,7 +88,7 @@ def run(tier, rep, replay=None):
                         "context serialisation parsed per its doc comment and re-validated each run"]
 
 MANIFEST = {
- "text": "HpkeContext.tla (one action per public call, byte-wise counter as in increment()) is model-checked exhaustively by TLC for small counters (NonceUnique, LockStep, NoWrap, IthSealNonce, FailKeeps, Inc=+1); TLC then simulates the same actions at the real size (B=256, Nn=12) from carry-boundary start values, the schedules are replayed on real sealer/opener contexts for all three AEADs, and the recorded trace (post sequence numbers, nonce actually used, plaintext released) is accepted by TLC only if every call is a step of the specification. A binding canary (one corrupted field) must be rejected on every run.",
+ "text": "HpkeContext.tla (one action per public call, byte-wise counter as in increment()) is model-checked exhaustively by TLC for small counters (NonceUnique, LockStep, NoWrap, IthSealNonce, FailKeeps, Inc=+1); TLC then simulates the same actions at the real size (B=256, Nn=12) from carry-boundary start values, the schedules are replayed on real sealer/opener contexts for all three AEADs, and the recorded trace (post sequence numbers, nonce actually used, plaintext released) is accepted by TLC only if every call is a step of the specification. A binding canary (one corrupted field) must be rejected on every run. A context that refuses its own marshalled form is recorded as a restore event with ok = false, for which the specification has no step.",
  "note": "Assumes AEAD primitives are correct (std AES-GCM / x/crypto ChaCha20-Poly1305 are used to observe which nonce sealed a ciphertext). Histories are bounded (depth 16-18, ~400 schedules x 3 AEADs in quick); not all histories.",
  "technique": "TLC exhaustive model checking (small counters) + TLC-simulated behaviours replayed on real contexts + TLC trace validation",
 }
